@@ -330,7 +330,9 @@ func Run(c *core.Ctx, opt Options, cases []*Case, judge func(*Result) Verdict) S
 	if opt.PerFile <= 0 {
 		opt.PerFile = 60
 	}
-	root := filepath.Join(c.Scratch, "b1-"+opt.Name)
+	// the checkout directory is none of the tool's business; its name holds characters that are special to
+	// formatting verbs, so that a path pushed through a format string twice does not come out the same
+	root := filepath.Join(c.Scratch, "b1-"+opt.Name+"-100%d%20s")
 	mod := core.NewModule(root, modPath)
 	for _, e := range opt.exts() {
 		_ = core.WriteFiles(root, map[string]string{e.file(): e.Src})
